@@ -261,7 +261,17 @@ class ScriptGen:
         r.shuffle(exts)
         if len(exts) == 1 and r.random() < 0.5:
             return [b"require", b'"%s"' % exts[0].encode(), b";"]
-        if len(exts) > 1 and r.random() < 0.25:
+        p = r.random()
+        if p < 0.12:
+            # a capability named twice: in one list, or again in a second require placed
+            # before the capabilities that are still missing (legal, and idempotent)
+            d = r.choice(exts)
+            if r.random() < 0.5:
+                k = r.randrange(0, len(exts))
+                return self._req_list(exts[:k] + [d] + exts[k:])
+            k = r.randrange(1, len(exts) + 1)
+            return self._req_list(exts[:k]) + self._req_list([r.choice(exts[:k])] + exts[k:])
+        if len(exts) > 1 and p < 0.35:
             k = r.randrange(1, len(exts))
             return (self._req_list(exts[:k]) + self._req_list(exts[k:]))
         return self._req_list(exts)
